@@ -19,12 +19,14 @@ from .. import lib_fm as F
 from .. import lib_fm_sanitise as S
 from ..core import MachineryError
 
-NORMALISERS = ('assoc', 'vec', 'nri', 'lower', 'imports', 'seqassoc', 'deadcode', 'singledecl')
+NORMALISERS = ('assoc', 'vec', 'nri', 'lower', 'imports', 'seqassoc', 'deadcode', 'deadcodeT', 'singledecl')
+DEADSEL_MIN = 4      # judged, really pruned `deadsel` sources per dead-code normaliser in every run (vacuity guard)
 DOC = {
     'assoc': 'do_resolve_associates(routine)', 'vec': 'resolve_vector_notation(routine)', 'nri': 'normalize_range_indexing(routine)',
     'lower': 'convert_to_lower_case(routine)', 'imports': 'sanitise_imports(module) / sanitise_imports(routine)',
     'seqassoc': 'do_resolve_sequence_association(routine)', 'deadcode': 'do_remove_dead_code(routine)',
     'singledecl': 'single_variable_declaration(routine)',
+    'deadcodeT': 'RemoveCodeTransformation(remove_dead_code=True).apply(routine)',
 }
 
 
@@ -51,6 +53,11 @@ def apply(src, norm):
             sanitise_imports(m)
         for r in src.routines:
             sanitise_imports(r)
+        return
+    if norm == 'deadcodeT':
+        from loki.transformations.remove_code import RemoveCodeTransformation
+        for r in src.all_subroutines:
+            RemoveCodeTransformation(remove_dead_code=True).apply(r)
         return
     fn = {'assoc': do_resolve_associates, 'vec': resolve_vector_notation, 'nri': normalize_range_indexing,
           'lower': convert_to_lower_case, 'seqassoc': do_resolve_sequence_association, 'deadcode': do_remove_dead_code,
@@ -103,6 +110,15 @@ def gen_sources(ctx, scale):
         out.append(('seqassoc', S.seqassoc_snippet(rng)))
     for i in range(scale):
         out.append(('deep', S.deep_snippet(rng)))
+    # dead code nested inside statically selected SELECT CASE branches / IF (.true.) bodies (depth 2..3)
+    for i in range(max(DEADSEL_MIN + 2, 2 * scale)):
+        g = F.Gen(rng, ('select', 'call', 'exitcycle') if i % 2 else ('call',))
+        prog, nested = S.add_decidable_selects(g.program(rng.randint(2, 4), 1), rng, depth=2 + i % 2)
+        if i % 3 == 2:
+            prog = S.add_constant_conditionals(prog, rng, 0.15)
+        out.append(('deadsel', F.render(prog)))
+    for i in range(scale):
+        out.append(('nestvec', S.nested_vector_snippet(rng)))
     styled = []
     for corpus, text in out:
         r = rng.random()
@@ -207,6 +223,12 @@ def run(ctx):
     ctx.cover['cases_per_normaliser_and_clause'] = tally
     ctx.cover['first_application_raised_not_judged'] = first_raised
     ctx.cover['normalisers'] = DOC
+    if not ctx.replay:
+        pruned = {n: sum(1 for i, (corpus, norm, _t, _e) in enumerate(meta)
+                         if norm == n and corpus.startswith('deadsel') and verdicts[i][1] != 'ok:identity') for n in ('deadcode', 'deadcodeT')}
+        ctx.cover['deadsel_sources_pruned_per_normaliser'] = pruned
+        if any(v < DEADSEL_MIN for v in pruned.values()):
+            raise MachineryError(f'vacuity: fewer than {DEADSEL_MIN} deadsel sources were judged and pruned: {pruned}')
     never_changed = [n for n in norms if tally.get(n, {}).get('ok:changed-once', 0) == 0 and not any(k.startswith(f'idem:{n}:') for k in seen)]
     if never_changed and not ctx.replay:
         raise MachineryError(f'vacuity: normalisers that never changed any source: {never_changed}')
@@ -216,7 +238,8 @@ def run(ctx):
         'both applications act on the same parsed IR object; text is compared as printed by fgen (Sourcefile.to_fortran)',
         'sources: generated MiniFortran kernels (ASSOCIATE / array-section / control-flow populations of C29, C30, C01 with '
         'compile-time-decidable conditions added), hand-varied import snippets (module + routine level USE, renames, kinds, members) '
-        'and sequence-association snippets, deeply nested mixed-case expressions; respelled in mixed case and with grouped declarations',
+        'and sequence-association snippets, deeply nested mixed-case expressions, decidable SELECT CASE / IF (.true.) nests with '
+        'prunable code in the selected branch (deadsel), sections nested in vector subscripts (nestvec); respelled in mixed case and with grouped declarations',
         'a first application that raises is not a C40 matter (counted, not judged)',
     ]
 
